@@ -42,7 +42,8 @@ RULE = ('documents of the five kinds (topology, equipment, services, spectrum, s
         'decimal-formatting cases and alias-expansion cases; 14 % of the cases take the YANG form of a generated document and '
         'serialise it in another order (entries of every keyed list reversed/shuffled, or the members of every object '
         'shuffled with the list keys kept in front): libyang must still accept it and yang_to_legacy and the loaders must '
-        'give the same result as for the original order (positional lists such as nf_coef exactly). libyang is the well-formedness oracle: documents it rejects '
+        'convert it and YANG -> legacy -> YANG must preserve its data (a valid document in the YANG sense: RFC 7951, members '
+        'and keyed-list entries unordered); that the result equals the one of the original order is a correspondence fact. libyang is the well-formedness oracle: documents it rejects '
         'are counted as malformed (about 10 %, produced on purpose by a field outside the schema / too many digits / a '
         'missing mandatory range) and only the error behaviour is compared. A case is non-trivial when the document was '
         'accepted and contains at least one structure the converters rewrite or a value that needs rounding; distinct = '
@@ -1018,22 +1019,22 @@ def preserved(res, a, b, path=(), ip=''):
     the finding class).  Returns the number of leaves that needed rounding."""
     if isinstance(a, dict):
         if not isinstance(b, dict):
-            res.fail(f'structure: {ip} was a dict, came back as {type(b).__name__}', cls=cls_of(ip), path=ip)
+            res.fail(f'structure: {ip} was a dict, came back as {type(b).__name__}', path=ip)
             return 0
         n = 0
         for k in a:
             if k not in b:
-                res.fail(f'structure: key {k} lost on the way through YANG ({ip}/{k})', cls=cls_of(f'{ip}/{k}'), path=f'{ip}/{k}')
+                res.fail(f'structure: key {k} lost on the way through YANG ({ip}/{k})', path=f'{ip}/{k}')
             else:
                 n += preserved(res, a[k], b[k], path + (k,), f'{ip}/{k}')
         for k in b:
             if k not in a and not _benign_added(path, k, b[k]):
-                res.fail(f'structure: key {k} appeared on the way through YANG ({ip}/{k})', cls=cls_of(f'{ip}/{k}'), path=f'{ip}/{k}')
+                res.fail(f'structure: key {k} appeared on the way through YANG ({ip}/{k})', path=f'{ip}/{k}')
         return n
     if isinstance(a, list):
         if not isinstance(b, list) or len(a) != len(b):
             res.fail(f'structure: list at {ip} had {len(a)} entries, came back as {b if not isinstance(b, list) else len(b)}',
-                     cls=cls_of(ip), path=ip)
+                     path=ip)
             return 0
         return sum(preserved(res, x, y, path, f'{ip}[{i}]') for i, (x, y) in enumerate(zip(a, b)))
     if isinstance(a, bool) or a is None or isinstance(a, str):
@@ -1049,7 +1050,9 @@ def preserved(res, a, b, path=(), ip=''):
             res.fail(f'value: {ip} was {a!r}, came back as {b!r}', path=ip)
         return 0
     if d == 0:
-        if a != b or not isinstance(b, int):
+        # an integer leaf: the value must come back; int vs float spelling (5 / 5.0) is not part of the statement (the exact
+        # type is compared with the model in the correspondence)
+        if a != b:
             res.fail(f'value: integer {a!r} at {ip} came back as {b!r}', path=ip)
         return 0
     tol = (0.5 if d < 17 else 1.0) * 10.0 ** (-d) * (1 + 1e-12) + 2 * ulp(float(a))
@@ -1079,23 +1082,8 @@ def _benign_added(path, k, v):
     return path == ('Roadm',) and k == 'type_variety' and v == 'default'
 
 
-# F6 (second SI/Span entry not converted back) and F7 (raman_efficiency lost on the way back) were findings of this check;
-# both are repaired in /repo (f4882f89, df307dac).  Their witnesses stay in corpus/C18 as regression cases and every
-# failure is reported as unlisted again.
-F6 = 'unlisted'
-F7 = 'unlisted'
-_F6_RE = re.compile(r'^(/gnpy-eqpt-config:equipment)?/(SI\[[1-9]\d*\]/power_range(_dict)?_db|Span\[[1-9]\d*\]/delta_power_range(_dict)?_db)\b')
-_F7_RE = re.compile(r'^(/gnpy-eqpt-config:equipment)?/RamanFiber\[\d+\]/raman_(efficiency|coefficient)\b')
-
-
-def cls_of(ip):
-    """finding class of a difference located at `ip` – only the two specific places of F6 and F7, everything else is
-    unlisted"""
-    if _F6_RE.match(ip):
-        return F6
-    if _F7_RE.match(ip):
-        return F7
-    return 'unlisted'
+# F6 (second SI/Span entry not converted back, f4882f89) and F7 (raman_efficiency lost on the way back, df307dac) were
+# findings of this check; their witnesses stay in corpus/C18 as regression cases.
 
 
 def diff_paths(a, b, ip=''):
@@ -1281,13 +1269,9 @@ def run_doc(case, drv):
     # --- monitor: idempotence
     def idem(what, got, err, want, msg):
         if err is not None:
-            cls = F7 if (err == 'other:Error' and 'raman_coefficient' in msg and 'RamanFiber' in msg) else 'unlisted'
-            res.fail(f'idempotence: {what} raises {err}', cls=cls)
+            res.fail(f'idempotence: {what} raises {err}')
         elif got != want:
-            places = diff_paths(want, got)
-            for c in sorted({cls_of(p) for p in places}):
-                first = [p for p in places if cls_of(p) == c][0]
-                res.fail(f'idempotence: {what} changes the document at {first}', cls=c)
+            res.fail(f'idempotence: {what} changes the document at {diff_paths(want, got)[0]}')
 
     idem('legacy_to_yang applied to its own output', y2, y2err, y, y2msg)
     idem('yang_to_legacy applied to its own output', l2, l2err, l, l2msg)
@@ -1430,23 +1414,12 @@ def run_loaders(res, kind, d, l, rounded=True, order_cls=False):
         a, b = _sort_object_lists(_pairs_order_free(a)), _sort_object_lists(_pairs_order_free(b))
     df = diff_obj(a, b)
     if df and order_cls:
-        res.fail(f'serialisation order: the loaders build different objects at {df[0]}: {str(df[1])[:100]} / {str(df[2])[:100]} '
-                 'when the keyed lists of the YANG document are serialised in another order')
+        # not part of the property text (which speaks of the round trip of one document): a correspondence fact
+        res.mismatch('loaders(permuted YANG serialisation) vs loaders(original serialisation)', str(df[1])[:160], str(df[2])[:160],
+                     where=df[0])
         return
     if df:
-        cls = 'unlisted'
-        where = df[0]
-        # the two places where the loader objects show the known findings: a non-first SI/Span entry built with the
-        # default range because its range came back in dict form (F6); a RamanFiber library entry without its Raman
-        # coefficient because raman_efficiency came back as raman_coefficient (F7)
-        if kind == 'equipment':
-            m = re.match(r'^/(SI|Span)/([^/]+)/(power_range_db|delta_power_range_db|power_range_dict_db|delta_power_range_dict_db)', where)
-            if m and _entry_index(d, m.group(1), m.group(2)) >= 1:
-                cls = F6
-            if re.match(r'^/RamanFiber/[^/]+/raman_coefficient', where) and \
-                    any('raman_efficiency' in f for f in d.get('RamanFiber', [])):
-                cls = F7
-        res.fail(f'loaders: objects differ at {where}: legacy form {str(df[1])[:120]} / through YANG {str(df[2])[:120]}', cls=cls)
+        res.fail(f'loaders: objects differ at {df[0]}: legacy form {str(df[1])[:120]} / through YANG {str(df[2])[:120]}')
     if kind == 'equipment':
         check_aliases(res, d, b)
 
@@ -1482,16 +1455,6 @@ def _sort_object_lists(x):
             y = sorted(y, key=lambda e: json.dumps(e, sort_keys=True, default=str))
         return y
     return x
-
-
-def _entry_index(d, key, name):
-    """position in the document of the SI/Span entry the loader stored under `name` (a later entry of the same name
-    replaces an earlier one)"""
-    idx = -1
-    for i, e in enumerate(d.get(key, [])):
-        if e.get('type_variety', 'default') == name:
-            idx = i
-    return idx
 
 
 def check_aliases(res, d, eq):
@@ -1688,21 +1651,57 @@ def run_permuted(case, drv):
     if lerr is not None:
         return res
     if lperr is not None:
-        res.fail(f'serialisation order: the same YANG data with {what} in another order is refused by yang_to_legacy ({lperr})')
+        # yp is a valid document (libyang accepted it): the loader path must convert it
+        res.fail(f'accepted document cannot be converted back: yang_to_legacy raises {lperr} on a valid YANG document whose '
+                 f'{what} are serialised in another order')
         return res
     res.nontrivial = bool(count) or what == 'members'
-    # --- monitor: same legacy document (positional lists exactly, key-ordered lists up to their own order)
-    if what == 'members':
-        places = diff_paths(l, lp)
+    # --- monitor (the property applied to the valid YANG-form document yp): YANG -> legacy -> YANG preserves every value and
+    #     every list/degree/band structure.  "Same YANG document" is read as RFC 7951 reads it: object members and the
+    #     entries of a keyed list carry no order (a keyed list is a map from its key), leaf-lists and key-less lists do.
+    ypp, ypperr = _impl(legacy_to_yang, lp)
+    if ypperr is not None:
+        res.fail(f'round trip of a valid YANG document: legacy_to_yang raises {ypperr} on what yang_to_legacy returned')
     else:
-        places = diff_paths(order_free(l), order_free(lp))
+        for pth in yang_data_diff(yp, ypp)[:3]:
+            res.fail(f'round trip of a valid YANG document (YANG -> legacy -> YANG) changes the data at {pth}')
+    # --- correspondence facts beyond the property text: the conversion and the built objects do not depend on the
+    #     serialisation order (positional legacy lists exactly, key-ordered lists up to their own order)
+    places = diff_paths(l, lp) if what == 'members' else diff_paths(order_free(l), order_free(lp))
     for pth in places[:3]:
-        res.fail(f'serialisation order: yang_to_legacy gives another legacy document at {pth} when the {what} of the YANG '
-                 'document are serialised in another order')
-    # --- monitor: the loaders build the same objects
+        res.mismatch('yang_to_legacy(permuted serialisation) vs yang_to_legacy(original serialisation)', None, None, where=pth)
     if kind in ('equipment', 'topology', 'services', 'spectrum'):
         run_loaders(res, kind, l, lp, rounded=False, order_cls=True)
     return res
+
+
+def yang_data_diff(a, b, ip='', key=None):
+    """places where two YANG-form JSON documents denote different data: members unordered, keyed lists as maps"""
+    if isinstance(a, dict) and isinstance(b, dict):
+        out = [f'{ip}/{k}' for k in a if k not in b] + [f'{ip}/{k}' for k in b if k not in a]
+        for k in a:
+            if k in b:
+                out += yang_data_diff(a[k], b[k], f'{ip}/{k}', k)
+        return out
+    if isinstance(a, list) and isinstance(b, list):
+        if _is_keyed(key, a) and _is_keyed(key, b):
+            def kv(e):
+                return json.dumps([e.get(kk) for kk in KEYED[key]], default=str)
+            ma, mb = {kv(e): e for e in a}, {kv(e): e for e in b}
+            out = [f'{ip}[{k}]' for k in ma if k not in mb] + [f'{ip}[{k}]' for k in mb if k not in ma]
+            if len(ma) != len(a) or len(mb) != len(b):
+                out.append(f'{ip} (duplicate keys)')
+            for k in ma:
+                if k in mb:
+                    out += yang_data_diff(ma[k], mb[k], f'{ip}[{k}]')
+            return out
+        if len(a) != len(b):
+            return [ip]
+        out = []
+        for i, (x, y_) in enumerate(zip(a, b)):
+            out += yang_data_diff(x, y_, f'{ip}[{i}]')
+        return out
+    return [] if (a == b and type(a) is type(b)) else [ip]
 
 
 def shrink_candidates(case):
